@@ -1,7 +1,7 @@
 (* C08 — analyses are side-effect free.  Statements only.  Model: Model/Analyses.v (the perturb/restore code of
    each analysis as a functional of an abstract solve function), Model/AeroState.v. *)
 From Coq Require Import Reals Lra List Bool.
-From MuxV Require Import Base.Num Base.Vec3 Base.RInst Model.Helpers Model.AeroState Model.Analyses Proofs.HelpersP Proofs.AnalysesP.
+From MuxV Require Import Base.Num Base.Vec3 Base.RInst Model.Helpers Model.AeroState Model.Analyses Proofs.HelpersP Proofs.AnalysesP Proofs.TrigP.
 Import ListNotations.
 Local Open Scope R_scope.
 
@@ -49,3 +49,17 @@ Print Assumptions C08_stability_derivatives_restore.
 Print Assumptions C08_damping_derivatives_restore.
 Print Assumptions C08_control_derivatives_restore.
 Print Assumptions C08_aero_center_restores.
+
+(* ---- the same statements with the real trigonometric functions and NumPy's atan2: the encoding hypotheses are theorems
+   (Proofs/TrigP.v) for angles inside (-90, 90) degrees, positive airspeed and forward flight (u > 0) ---- *)
+Theorem C08_stability_derivatives_restore_real : forall W F s dth, unit_attitude s -> okB_real (rel_body_velocity W s) ->
+  let '(a0, b0, V0) := enc asin Ratan2 r2d (rel_body_velocity W s) in
+  okA_real (a0 + dth) b0 V0 -> okA_real (a0 - dth) b0 V0 -> okA_real a0 (b0 + dth) V0 -> okA_real a0 (b0 - dth) V0 ->
+  snd (stability cos sin tan atan asin Ratan2 d2r r2d W F s dth) = s.
+Proof. intros W F. exact (C08_stability_derivatives_restore cos sin tan atan asin Ratan2 d2r r2d W F okA_real okB_real HA_real HB_real). Qed.
+Print Assumptions C08_stability_derivatives_restore_real.
+
+Theorem C08_aero_center_restores_real : forall W F s delta, unit_attitude s -> okB_real (rel_body_velocity W s) ->
+  snd (aero_center cos sin tan atan asin Ratan2 d2r r2d W F s delta) = s.
+Proof. intros W F. exact (C08_aero_center_restores cos sin tan atan asin Ratan2 d2r r2d W F okB_real HB_real). Qed.
+Print Assumptions C08_aero_center_restores_real.
